@@ -25,7 +25,7 @@ RULE = ('cells = (transform in {DWT1D fwd/inv, DWT2D fwd/inv, SWT, DTCWT fwd/inv
 ASSUMPTIONS = ['float64', 'bounds 64*eps*gain*max|x|; bit-identity of batched vs per-slice results is reported, not demanded']
 TIMEOUT = {'quick': 900, 'thorough': 3300}
 WORKER_BUDGET = {'quick': 600, 'thorough': 2700}
-MIN_HELD = {'quick': 400, 'thorough': 2000}
+MIN_HELD = {'quick': 400, 'thorough': 87651}
 KINDS = ['dwt1f', 'dwt1i', 'dwt2f', 'dwt2i', 'swt', 'dtf', 'dti']
 NS, CS = [1, 2, 3, 5], [1, 2, 3, 4, 7]
 
